@@ -173,9 +173,9 @@ def cases(tier, seed=0):
   for order in ([("Cu",), ("Cu", "Al"), ("Al", "Cu")] if tier == "quick" else
                 [("Cu",), ("Cu", "Al"), ("Al", "Cu"), ("Zr", "Cu", "Al"), ("Al", "Zr", "Cu"), ("B", "Zr", "Al", "Cu")]):
     cs.append(Case("excel_eam_fs %s" % "/".join(order), excel_case, elements=order, nr=3, nrho=2))
-  for m in ("fs_basic", "fs_three", "fs_multirange"):
+  for m in ("fs_basic", "fs_three", "fs_multirange", "fs_undeclared"):
     for tgt in ("setfl_fs", "DL_POLY_EAM_fs"):
-      cs.append(Case("potable %s %s" % (m, tgt), EP.potable_case, model_name=m, target=tgt, nr=2 if tier == "quick" else 3, nrho=2))
+      cs.append(Case("potable %s %s" % (m, tgt), EP.potable_case, model_name=m, target=tgt, nr=(3 if m == "fs_undeclared" else 2) if tier == "quick" else 3, nrho=2))
   from checks import eam_api as _ea
   cs += _ea.surplus_cases('setfl_fs', tier)
   cs += _ea.surplus_cases('DL_POLY_EAM_fs', tier)
@@ -185,6 +185,9 @@ def cases(tier, seed=0):
   cs += _ea.shared_and_undeclared_cases('DL_POLY_EAM_fs', tier)
   cs += _ea.written_first_cases('setfl_fs', tier)
   cs += _ea.written_first_cases('DL_POLY_EAM_fs', tier)
+  cs += _ea.energy_override_cases('setfl_fs', tier)
+  cs += _ea.energy_override_cases('DL_POLY_EAM_fs', tier)
+  cs += _ea.cutoff_arg_cases('setfl_fs', tier)
   return cs
 
 
